@@ -138,3 +138,12 @@ Proof.
   rewrite Q1, Q2, Si, Sj, veq_refl. splits; auto.
   rewrite (values_geth s' _ i A'), (values_geth s vs j A), Si. reflexivity.
 Qed.
+
+(* ---- the concrete history used by the non-vacuity Examples of Properties_C07.v ---- *)
+Definition ex_l0 : list op :=
+  [ OSetStr 0 [] [97; 98]%Z;
+    OSetNode 1 [] KList [([], 0%nat); ([], 0%nat)];
+    OCopyNew 2 1;
+    OSetNode 0 [] KMap [([107%Z], 1%nat); ([108%Z], 2%nat)] ].
+Definition ex_cow : op := OStrAppend 1 [(KList, ByIdx 0)] [120%Z].
+
